@@ -13,7 +13,17 @@ import (
 	"golang.org/x/tools/go/ssa/ssautil"
 )
 
-const RepoDir = "/repo"
+// RepoDir is the tree under check: /repo. VERIF_REPO points the engine at another checkout (used only to run
+// the checks against a seeded change inside its scratch worktree without touching /repo; evidence of such
+// runs goes to a scratch directory, see cmd/check).
+var RepoDir = repoDir()
+
+func repoDir() string {
+	if d := os.Getenv("VERIF_REPO"); d != "" {
+		return d
+	}
+	return "/repo"
+}
 const RepoMod = "github.com/ontio/ontology"
 
 // BuildOverlay maps virtual /repo paths to contents for the given harness files.
